@@ -136,6 +136,9 @@ PURE_NATIVE = {
 }
 
 
+NATIVE_LIBRARIES = {'networkx'}        # concrete objects of these libraries are used natively (trusted, listed per target)
+
+
 class Interp:
     def __init__(self, ctx, globs, externs=None, pure=None, loop_specs=None, drop=None, set_iter='error',
                  qualname='<target>'):
@@ -646,8 +649,16 @@ class Interp:
                 if n > MAX_LOOP:
                     raise OutsideSubset("loop over a symbolic range needs an invariant")
             return out
-        if isinstance(v, (map, filter, zip, enumerate, reversed)) or hasattr(v, '__next__'):
-            return list(v)
+        if isinstance(v, (map, filter, zip, enumerate, reversed)) or hasattr(v, '__next__') or \
+                (type(v).__module__ or '').split('.')[0] in NATIVE_LIBRARIES:
+            # generators and concrete objects of a trusted library (e.g. a networkx graph built by the harness) are
+            # iterated natively; an exception raised while iterating is the program's exception
+            try:
+                return list(v)
+            except (OutsideSubset, Infeasible):
+                raise
+            except Exception as err:
+                raise PyRaise(ExcVal(type(err), err.args))
         raise OutsideSubset("iteration over %s" % type(v).__name__)
 
     # ------------------------------------------------------------------ stores
